@@ -13,6 +13,19 @@ Definition tc_fields (t : tc) : args :=
 Definition tc_of_args (a : args) : res tc :=
   tc_new (int 0 0 a) (int 0 1 a) (int 0 2 a) (lst 1 a) (int 0 3 a) (int 0 4 a) (int 0 5 a).
 
+(* one operation per argument list: [kind; value] or [3; app data...] *)
+Definition tc_op_of (l : list Z) : tc_op :=
+  match l with
+  | 0 :: _ => TcPack
+  | 1 :: _ => TcPackNoRecalc
+  | 2 :: _ => TcCalcCrc
+  | 3 :: d => TcSetApp d
+  | 4 :: v :: _ => TcSetSeq v
+  | 5 :: v :: _ => TcSetApid v
+  | 6 :: v :: _ => TcSetSource v
+  | _ => TcPack
+  end.
+
 Definition run_tc (op : Z) (a : args) : args :=
   match op with
   | 500 => ret tc_fields (tc_of_args a)
@@ -33,6 +46,13 @@ Definition run_tc (op : Z) (a : args) : args :=
   (* pack twice: second call with recalc_crc=False *)
   | 509 => ret (fun r => [fst r])
              (do t <- tc_of_args a; do p <- tc_pack t; tc_pack_norecalc (snd p))
+  (* history: new, then the operations in lists 2.., then observe space-packet view, pack, length *)
+  | 510 => ret (fun r => r)
+             (do t <- tc_of_args a;
+              do u <- tc_run t (map tc_op_of (skipn 2 a));
+              do sp <- tc_to_space_packet_pack u;
+              do p <- tc_pack u;
+              Ok [sp; fst p; [tc_packet_len u]])
   (* Spec *)
   | 550 => [[0]; tc_layout (int 0 0 a) (int 0 1 a) (int 0 2 a) (int 0 3 a) (int 0 4 a) (int 0 5 a) (lst 1 a)]
   | _ => [[1; 97]]
